@@ -208,6 +208,19 @@ def run_case(case):
             b0 = await inv.read_runtime_data()
             await compare(b0, "battery present")
             dev.set_reg(35184, 0)
+            # the battery has just gone; the ids are still listed and no bulk read has noticed yet: a single read of
+            # a value that lives in the battery block answers a value, None, or ValueError - nothing else
+            for sn in list(inv.sensors()):
+                if type(sn).__name__ == "EnumBitmap22" or sn.id_ in ("battery_soc", "battery_bms"):
+                    try:
+                        await inv.read_sensor(sn.id_)
+                    except (ValueError, ge.InverterError):
+                        pass
+                    except Exception as e:  # noqa
+                        add(f"C16:exception:{type(e).__name__}:{type(sn).__name__}:battery-just-gone",
+                            f"{fam}/{var}/{tr}: read_sensor({sn.id_!r}) raised {e!r} right after the battery disappeared "
+                            f"(the id was listed by sensors() when the call was made)")
+                        break
         bulk = await inv.read_runtime_data()
         await compare(bulk, h)
 
